@@ -63,12 +63,13 @@ func VerifH_C12_UpstreamQueryOPT() {
 
 // VerifH_C12_ResponseOPT: the answer to a supported query has exactly one OPT {root,41,1200,0,no options}
 // iff the query had one, whatever OPT/options the upstream (or the cache) supplied.
-func VerifH_C12_ResponseOPT_S2() {
+func VerifH_C12_ResponseOPT_S8() {
 	verifrt.Unwind(60)
 	vRich = verifrt.Thorough()
+	vFamForce = verifrt.Shard() / 2 // 0 v4, 1 v6, 2 v4-mapped, 3 unknown
 	up := &vUpstream{tag: "up", maxRecs: 1}
 	uw := &upstreamWrapper{tag: "up", u: up}
-	r := vRouter([]*rule{{upstream: uw}}, verifrt.Shard() == 1)
+	r := vRouter([]*rule{{upstream: uw}}, verifrt.Shard()%2 == 1)
 	m := vQuery("m")
 	verifrt.Assume(!m.Response && m.RecursionDesired && m.OpCode == 0 && len(m.Questions) == 1)
 	rc := getRequestContext()
